@@ -2,7 +2,7 @@
 
 use crate::ast::*;
 use crate::astgen::{self, GenCfg};
-use crate::engine::{decode, Check, Ctx, Obs};
+use crate::engine::{decode, Check, Ctx, Obs, Failure};
 use crate::props::c03::differential;
 use crate::rv::{obj, st, RV};
 use proptest::prelude::*;
@@ -149,6 +149,79 @@ fn header_nth(i: u64) -> Option<Header> {
         return None; // tablerow has no `reversed`
     }
     Some(Header { n, offset: opt(d[1]), limit: opt(d[2]), reversed: d[3] == 1, tablerow, kind, via_var: d[6] == 1 })
+}
+
+// ---- objects with several keys: the iteration order is unspecified, so a validity predicate
+// instead of one expected output
+
+#[derive(Clone, Debug, Hash, Serialize, Deserialize)]
+pub struct MultiKey {
+    pub n: i64,
+    pub offset: Option<i64>,
+    pub limit: Option<i64>,
+    pub reversed: bool,
+    pub tablerow: bool,
+}
+
+fn multi_key_oracle(c: &MultiKey, obs: &mut Obs) -> Check {
+    obs.nt(c);
+    let keys: Vec<String> = (0..c.n).map(|i| format!("key{i}")).collect();
+    let data = obj(vec![("o", RV::Obj(keys.iter().map(|k| (k.clone(), st(&format!("v-{k}")))).collect()))]);
+    let mut head = String::from("i in o");
+    if let Some(l) = c.limit {
+        head.push_str(&format!(" limit: {l}"));
+    }
+    if let Some(o) = c.offset {
+        head.push_str(&format!(" offset: {o}"));
+    }
+    if c.reversed {
+        head.push_str(" reversed");
+    }
+    let (tag, lp, else_) = if c.tablerow { ("tablerow", "tablerow", "") } else { ("for", "forloop", "{% else %}EMPTY") };
+    let src = format!("{{% {tag} {head} %}}<{{{{ i[0] }}}}={{{{ i[1] }}}};{{{{ {lp}.index }}}};{{{{ {lp}.length }}}};{{{{ {lp}.first }}}};{{{{ {lp}.last }}}}>{else_}{{% end{tag} %}}");
+    let got = crate::lq::with_parser(crate::lq::Conf::Stdlib, |p| crate::lq::run_rv(p, &src, &data));
+    let text = match &got {
+        Ok(Ok(s)) => s.clone(),
+        other => return Err(Failure::new("loop: iterating an object with several keys fails", format!("src={src:?} got={}", crate::lq::show(other)))),
+    };
+    let want = (c.n - c.offset.unwrap_or(0)).max(0).min(c.limit.unwrap_or(i64::MAX)) as usize;
+    let fail = |why: &str| Err(Failure::new(format!("loop: object with several keys: {why}"), format!("src={src:?} n={} expected {want} iterations, output={text:?}", c.n)));
+    if want == 0 {
+        let stripped = text.replace("<tr class=\"row1\">", "").replace("</tr>", "").replace('\n', "");
+        return if (c.tablerow && stripped.is_empty()) || (!c.tablerow && text == "EMPTY") { Ok(()) } else { fail("nothing is selected but the body ran or the else branch did not") };
+    }
+    let items: Vec<&str> = text.split('<').filter_map(|s| s.split_once('>').map(|x| x.0)).filter(|s| s.contains('=') && s.contains(';')).collect();
+    if items.len() != want {
+        return fail("wrong number of iterations");
+    }
+    let mut seen = std::collections::BTreeSet::new();
+    for (idx, it) in items.iter().enumerate() {
+        let f: Vec<&str> = it.split(';').collect();
+        let Some((k, v)) = f[0].split_once('=') else { return fail("item is not a key/value pair") };
+        if !keys.iter().any(|x| x == k) || v != format!("v-{k}") {
+            return fail("a visited element is not an entry of the object");
+        }
+        if !seen.insert(k.to_string()) {
+            return fail("an entry is visited twice");
+        }
+        let truth = [format!("{}", idx + 1), format!("{want}"), format!("{}", idx == 0), format!("{}", idx + 1 == want)];
+        if f[1..] != truth.iter().map(|s| s.as_str()).collect::<Vec<_>>()[..] {
+            return fail("loop fields do not describe the iteration");
+        }
+    }
+    if c.offset.is_none() && c.limit.is_none() && seen.len() != keys.len() {
+        return fail("an unrestricted loop does not visit every entry");
+    }
+    Ok(())
+}
+
+fn multi_key_nth(i: u64) -> Option<MultiKey> {
+    let d = decode(i, &[7, 10, 10, 2, 2])?;
+    let opt = |x: u64| if x == 0 { None } else { Some(x as i64 - 1) };
+    if d[3] == 1 && d[4] == 1 {
+        return None;
+    }
+    Some(MultiKey { n: d[0] as i64 + 2, offset: opt(d[1]), limit: opt(d[2]), reversed: d[3] == 1, tablerow: d[4] == 1 })
 }
 
 // ---- interrupts in two nested loops
@@ -304,10 +377,11 @@ fn limit_ranges() -> Vec<Rand> {
 }
 
 pub fn run(ctx: &Ctx) {
-    ctx.set_rule("E2 cube: collection length 0..6 x offset {absent,0..8} x limit {absent,0..8} x reversed x {for, tablerow cols absent/1..4} x {array, literal range, variable-bound range, descending range, single-key object, nil} x attributes as literals / through variables, body prints the item and every forloop/tablerow field, for-else present; second cube: break/continue guarded by forloop.index == k (k 1..5) at three positions of two nested loops (n, m 0..4), guard wrapped in if / capture / case; E1: headers with n <= 40, random nested loop programs. Oracle: reference interpreter. Non-trivial = window differs from the whole collection (offset/limit/reversed) or an interrupt is present; distinct by case.");
+    ctx.set_rule("E2 cube: collection length 0..6 x offset {absent,0..8} x limit {absent,0..8} x reversed x {for, tablerow cols absent/1..4} x {array, literal range, variable-bound range, descending range, single-key object, nil} x attributes as literals / through variables, body prints the item and every forloop/tablerow field, for-else present; objects with 2..8 keys (iteration order unspecified) by a validity predicate: the right number of iterations, every visited element a distinct entry, fields truthful, else branch exactly when nothing is selected; second cube: break/continue guarded by forloop.index == k (k 1..5) at three positions of two nested loops (n, m 0..4), guard wrapped in if / capture / case; E1: headers with n <= 40, random nested loop programs. Oracle: reference interpreter. Non-trivial = window differs from the whole collection (offset/limit/reversed) or an interrupt is present; distinct by case.");
     ctx.exhaustive("headers", 7 * 10 * 10 * 2 * 6 * 6 * 2, header_nth, header_oracle);
     ctx.exhaustive("interrupts", 5 * 5 * 2 * 3 * 5 * 3, interrupt_nth, interrupt_oracle);
     ctx.cases("ranges_at_i64_limits", limit_ranges(), rand_oracle);
+    ctx.exhaustive("multi_key_objects", 7 * 10 * 10 * 2 * 2, multi_key_nth, multi_key_oracle);
     ctx.random("big_headers", ctx.pick(150_000, 3_000_000), big_header, header_oracle);
     ctx.random("programs", ctx.pick(150_000, 6_000_000), rand_strategy, rand_oracle);
 }
